@@ -1015,6 +1015,22 @@ func runC14(args []string) error {
 			return err
 		}
 	}
+	// the literal parser of the model against go/constant, on seeded literals of every form
+	nlit := 4000
+	if *tier == "thorough" {
+		nlit = 40000
+	}
+	lits := c14LitStream(*seed, nlit, sm)
+	for i, k := 0, 0; i < len(lits); i, k = i+1000, k+1 {
+		j := i + 1000
+		if j > len(lits) {
+			j = len(lits)
+		}
+		if err := write(fmt.Sprintf("cases_lit%02d.v", k), c14LitCasesFile(lits[i:j])); err != nil {
+			return err
+		}
+	}
+	sm.Distribution["literals"] = len(lits)
 	// thorough: the remaining groups travel inside the cases files
 	var extra []*bindGroup
 	for _, g := range col.Groups {
